@@ -76,8 +76,11 @@ def run(ctx):
                 opts["size"] = ln + 1
                 expect = {"SizeMismatch"}
             r = rng.random()
-            if r < 0.25:
+            if r < 0.15:
                 opts["sri"] = sri
+            elif r < 0.3:
+                # several algorithms, all correct: the entry must stay readable
+                opts["sri"] = f"{ref.sri(rng.choice(['sha512', 'sha384', 'sha1']), data)} {sri}"
             elif r < 0.45:
                 opts["sri"] = ref.sri("sha256", data + b"!")
                 expect = {"IntegrityError"} if "SizeMismatch" not in expect else {"IntegrityError", "SizeMismatch"}
